@@ -34,6 +34,10 @@ func main() {
 		}
 		return b
 	}
+	sharedParam := &otp.Param{Digits: 6, Algorithm: otp.SHA1}
+	sharedRef := ref.OCRAIn{Counter: mk(8, 1), Challenge: mk(12, 2), Password: mk(20, 3), Session: mk(40, 4), Timestamp: mk(8, 5)}
+	sharedIn := otp.OCRAInput{Counter: sharedRef.Counter, Challenge: sharedRef.Challenge, Password: sharedRef.Password, SessionInfo: sharedRef.Session, Timestamp: sharedRef.Timestamp}
+	sharedWant := ref.OCRA(key, long, sharedRef)
 	nSuites := len(otp.VerifKnownSuites()) // not through ListSuites: its first use must happen concurrently below
 	var bad atomic.Int64
 	var firstBad atomic.Value
@@ -101,6 +105,21 @@ func main() {
 					s, err = otp.GenerateTOTP(sec, t, nil)
 					if want := ref.HOTP(key, ref.Step(t.Unix(), 30), 6, 0); err != nil || s != want {
 						fail("GenerateTOTP = %q, %v; want %q", s, err, want)
+					}
+					// arguments that callers SHARE between goroutines because they are read-only by contract: one
+					// parameter struct (period 0 = default), one OCRA input
+					s, err = otp.GenerateTOTP(sec, t, sharedParam)
+					if want := ref.HOTP(key, ref.Step(t.Unix(), 30), 6, 0); err != nil || s != want {
+						fail("GenerateTOTP(shared Param) = %q, %v; want %q", s, err, want)
+					}
+					if ok, err := otp.ValidateTOTP(sec, s, t, sharedParam); !ok || err != nil {
+						fail("ValidateTOTP(shared Param) rejects the generated code: %v %v", ok, err)
+					}
+					if s, err := otp.GenerateHOTP(sec, c, sharedParam); err != nil || s != ref.HOTP(key, c, 6, 0) {
+						fail("GenerateHOTP(shared Param) = %q, %v", s, err)
+					}
+					if s, err := otp.GenerateOCRA(sec, longCfg, sharedIn); err != nil || s != sharedWant {
+						fail("GenerateOCRA(shared input) = %q, %v; want %q", s, err, sharedWant)
 					}
 					q := mk(10+(i%100), byte(w))
 					su, _ := otp.NewRawSuite(short.Text)
